@@ -9,7 +9,14 @@ NEG = {'Eq': 'Ne', 'Ne': 'Eq', 'Lt': 'Ge', 'Ge': 'Lt', 'Gt': 'Le', 'Le': 'Gt'}
 SWAP = {'Eq': 'Eq', 'Ne': 'Ne', 'Lt': 'Gt', 'Gt': 'Lt', 'Le': 'Ge', 'Ge': 'Le'}
 
 
+BOTTOM = 'bottom'      # no value at all (a field copied from itself adds nothing to the set of its values)
+
+
 def _union(a, b):
+    if a == BOTTOM:
+        return b
+    if b == BOTTOM:
+        return a
     lo = None if (a[0] is None or b[0] is None) else min(a[0], b[0])
     hi = None if (a[1] is None or b[1] is None) else max(a[1], b[1])
     return (lo, hi)
@@ -102,12 +109,16 @@ class Ranges:
             return self.of_operand(b, bi, idx, rv['o'])
         if k == 'cast' and rv.get('ck') == 'IntToInt':
             r = self.of_operand(b, bi, idx, rv['o'])
+            if r == BOTTOM:
+                return (INF, INF)
             # a value known to be non-negative and small keeps its value through any integer cast
             return r if (r[0] is not None and r[0] >= 0 and r[1] is not None and r[1] < 2 ** 31) else ((0, INF) if False else (INF, INF))
         if k == 'binop':
             op = rv['op'].replace('WithOverflow', '')
             a = self.of_operand(b, bi, idx, rv['a'])
             c = self.of_operand(b, bi, idx, rv['b'])
+            if a == BOTTOM or c == BOTTOM:
+                return (INF, INF)
             if op == 'Sub':
                 return (None if (a[0] is None or c[1] is None) else a[0] - c[1], None if (a[1] is None or c[0] is None) else a[1] - c[0])
             if op == 'Mul' and None not in a and None not in c:
@@ -158,7 +169,7 @@ class Ranges:
                 t = b.blocks[d.bb]['t']
                 c = ((t.get('f') or {}).get('fn') or {}).get('def')
                 idx0 = len(b.blocks[d.bb]['st'])
-                args = [self.of_operand(b, d.bb, idx0, a) for a in (t.get('args') or [])]
+                args = [(INF, INF) if x == BOTTOM else x for x in (self.of_operand(b, d.bb, idx0, a) for a in (t.get('args') or []))]
                 last = (c or '').split('::')[-1]
                 if c and c.startswith(self.ctx.F.crate + '::'):
                     r = self.contract(c)
@@ -174,6 +185,9 @@ class Ranges:
                     r = (INF, INF)
             else:
                 r = (INF, INF)
+            if r == BOTTOM:
+                total = r if total is None else _union(total, r)
+                continue
             # refinement by the comparisons on every path from this definition to the use
             start = d.bb if d.kind != 'call' else d.bb
             others = set((x, y) for y in full_def_blocks if y != d.bb for x in cfg.pred[y])
@@ -214,7 +228,7 @@ class Ranges:
         if not hasattr(self, '_fields'):
             self._fields = {}
         if key in self._fields:
-            return self._fields[key] or (INF, INF)
+            return BOTTOM if self._fields[key] is None else self._fields[key]
         self._fields[key] = None        # recursion: a field copied from itself adds nothing
         total = None
         n = 0
@@ -242,7 +256,7 @@ class Ranges:
                         self.notes.append('%s.%s := %s at %s' % (adt.split('::')[-1], name, r, b.loc(st.get('sp'))))
                         total = r if total is None else _union(total, r)
         # a whole-struct overwrite through a reference (`*e = other`) copies a value that was built by one of the above
-        self._fields[key] = total if n else (INF, INF)
+        self._fields[key] = total if (n and total is not None and total != BOTTOM) else (INF, INF)
         return self._fields[key]
 
 
@@ -293,6 +307,8 @@ def r07_9(ctx):
                         r = rg.of_operand(b, bi, src[0], src[1])
                     else:
                         r = rg.of_operand(b, bi, idx, a)
+            if r == BOTTOM:
+                r = (INF, INF)
             what = fmt(b, amount)[:50]
             key = '%s|shift amount|%s' % (short(b.q), what)
             ok = r[0] is not None and r[1] is not None and r[0] >= 0 and r[1] < bits
